@@ -55,8 +55,19 @@ impl Line {
             };
         }
         let mut s: String = self.tokens.iter().map(|s| s.to_string()).collect();
+        // columns count characters; replace_range wants byte offsets
+        visitor.replace.sort_by_key(|(col, _)| col.start);
         while let Some((col, num)) = visitor.replace.pop() {
-            s.replace_range(col, &format!("{}", num));
+            let mut offsets = s.char_indices().map(|(i, _)| i).chain(std::iter::once(s.len()));
+            let start = offsets.nth(col.start);
+            let end = if col.end > col.start {
+                offsets.nth(col.end - col.start - 1)
+            } else {
+                start
+            };
+            if let (Some(start), Some(end)) = (start, end) {
+                s.replace_range(start..end, &format!("{}", num));
+            }
         }
         let (_, tokens) = lex(&s);
         Line { number, tokens }
@@ -87,6 +98,10 @@ impl<'a> RenumVisitor<'a> {
         if n > LineNumber::max_value() as f64 {
             return;
         }
+        if n < 0.0 || col.start == col.end {
+            // an omitted operand (RESTORE, RUN, LIST, DELETE n-) is not a reference to line 0
+            return;
+        }
         let n = n as u16;
         if let Some(new_num) = self.changes.get(&n) {
             self.replace.push((col.clone(), *new_num));
@@ -103,7 +118,7 @@ impl<'a> Visitor for RenumVisitor<'a> {
                 self.line(ln1);
                 self.line(ln2);
             }
-            OnGoto(_, _, ve) => {
+            OnGoto(_, _, ve) | OnGosub(_, _, ve) => {
                 for ln in ve {
                     self.line(ln);
                 }
